@@ -9,6 +9,7 @@ import (
 	"strings"
 
 	"golang.org/x/tools/go/ssa"
+	"golang.org/x/tools/go/types/typeutil"
 )
 
 func init() { register("C18", runC18) }
@@ -176,12 +177,39 @@ func c18Enumeration(c *Ctx, ge *GuardEngine) {
 		for _, b := range fn.Blocks {
 			for _, in := range b.Instrs {
 				call, ok := in.(*ssa.Call)
-				if !ok || call.Call.Value != ssa.Value(fnParam) || len(call.Call.Args) != 3 {
+				if !ok || call.Call.Value != ssa.Value(fnParam) {
+					continue
+				}
+				// the leaves handed to the visitor: a slice argument, or a slice member of a parameter-grouping struct
+				var leavesArg ssa.Value
+				for _, arg := range call.Call.Args {
+					if _, isSlice := arg.Type().Underlying().(*types.Slice); isSlice {
+						leavesArg = arg
+					}
+					if _, isStruct := arg.Type().Underlying().(*types.Struct); isStruct {
+						if ld, ok := arg.(*ssa.UnOp); ok {
+							if al, ok := ld.X.(*ssa.Alloc); ok {
+								for _, ref := range *al.Referrers() {
+									if fa, ok := ref.(*ssa.FieldAddr); ok {
+										for _, r2 := range *fa.Referrers() {
+											if st, ok := r2.(*ssa.Store); ok && st.Addr == ssa.Value(fa) {
+												if _, isSlice := st.Val.Type().Underlying().(*types.Slice); isSlice {
+													leavesArg = st.Val
+												}
+											}
+										}
+									}
+								}
+							}
+						}
+					}
+				}
+				if leavesArg == nil {
 					continue
 				}
 				found = true
 				ge.pv.loadCtx = []ssa.Instruction{call}
-				a := ge.pv.Atom(call.Call.Args[2], nil)
+				a := ge.pv.Atom(leavesArg, nil)
 				ok2 := !strings.Contains(a, "call ") && !strings.Contains(a, "[:") && strings.HasSuffix(a, "[*]")
 				c.Check(ok2, "one-enumeration", "forEachTree:all-leaves-visited", c.P.Pos(call.Pos()), ifElse(ok2, "the visitor receives the collected per-height leaf slice unchanged (sorted in place)", "the visitor receives "+a+" instead of the collected leaves: a leaf that is dropped or replaced between collection and visit never has its proof restored"))
 			}
@@ -337,8 +365,32 @@ func c18OutlineFields(c *Ctx) {
 				}
 				k := kv.Key.(*ast.Ident).Name
 				seen[k] = true
-				if w, ok := want[k]; !ok || !strings.HasPrefix(types.ExprString(kv.Value), w) {
-					bad = append(bad, k+" = "+types.ExprString(kv.Value))
+				vs := types.ExprString(kv.Value)
+				w, ok := want[k]
+				good := ok && strings.HasPrefix(vs, w)
+				if ok && k == "Commitment" {
+					// a call of a gateway function (method or plain) on this outline: remembered as the commitment function
+					good = false
+					if call, isCall := stripParens(kv.Value).(*ast.CallExpr); isCall {
+						if f, _ := typeutil.Callee(info, call).(*types.Func); f != nil && f.Pkg() != nil && strings.HasSuffix(f.Pkg().Path(), "/gateway") {
+							onOutline := false
+							if sel, isSel := stripParens(call.Fun).(*ast.SelectorExpr); isSel && types.ExprString(sel.X) == recv {
+								onOutline = true
+							}
+							for _, a := range call.Args {
+								if as := types.ExprString(a); as == recv || as == "*"+recv || as == "&"+recv {
+									onOutline = true
+								}
+							}
+							if onOutline {
+								good = true
+								c18CommitmentFunc = f
+							}
+						}
+					}
+				}
+				if !good {
+					bad = append(bad, k+" = "+vs)
 				}
 			}
 			for k := range want {
@@ -355,6 +407,11 @@ func c18OutlineFields(c *Ctx) {
 	c.Min("field-map", 10)
 }
 
+var (
+	c18CommitmentFunc *types.Func
+	c18CommitmentSSA  *ssa.Function
+)
+
 func c18Commitment(c *Ctx, ge *GuardEngine) {
 	// sequence of AddLeaf arguments, in source order, for both commitment functions
 	seq := func(entry string) ([]string, *ssa.Function) {
@@ -367,7 +424,28 @@ func c18Commitment(c *Ctx, ge *GuardEngine) {
 		}
 		return out, fn
 	}
-	o, ofn := seq("gateway.(V2BlockOutline).commitment")
+	outlineSpec := "gateway.(V2BlockOutline).commitment"
+	if c18CommitmentFunc != nil {
+		// the function the outline ID actually uses, whatever it is called
+		for fn := range c.P.AllFuncs() {
+			if fn.Synthetic == "" && fn.Object() == types.Object(c18CommitmentFunc) {
+				outlineSpec = ""
+				c18CommitmentSSA = fn
+			}
+		}
+	}
+	var o []string
+	var ofn *ssa.Function
+	if outlineSpec != "" {
+		o, ofn = seq(outlineSpec)
+	} else {
+		ofn = c18CommitmentSSA
+		for _, cf := range ge.Calls(ofn, nil, nil, nil, 0, map[*ssa.Function]int{}) {
+			if len(cf.Chain) == 1 && cf.Callee != nil && FuncName(cf.Callee) == "(blake2b.Accumulator).AddLeaf" && len(cf.Args) == 2 {
+				o = append(o, cf.Args[1])
+			}
+		}
+	}
 	s, sfn := seq("consensus.(State).Commitment")
 	if ofn == nil || sfn == nil {
 		c.Undecided("commitment", "anchor", "", "commitment functions do not resolve")
